@@ -41,6 +41,11 @@ MASKS = {
 }
 
 
+FIRST = [None, "st_Gamma_udd4", "st_Riemann_down4", "st_Riemann_uddd4",
+         "st_Riemann_uudd4", "st_Ricci_down4", "st_RicciS", "Einsteindown4",
+         "Kretschmann", "gup4"]
+
+
 @st.composite
 def case_strategy(draw, tier):
     kind = draw(st.sampled_from(
@@ -53,7 +58,8 @@ def case_strategy(draw, tier):
         Lambda = draw(f(-0.5, 0.5)) if draw(st.booleans()) else 0.0
         c.update(Lambda=Lambda, matter="Tdown4", vacuum=False,
                  form=draw(st.sampled_from(["components", "tensors"])),
-                 gdet_first=draw(st.booleans()))
+                 gdet_first=draw(st.booleans()),
+                 first=draw(st.sampled_from(FIRST)))
         return c
     if kind == "Wp":
         order = draw(st.sampled_from([2, 4, 4, 6, 8]))
@@ -95,7 +101,8 @@ def case_strategy(draw, tier):
              Lambda=Lambda, matter=matter if matter != "vacuum" else "none",
              vacuum=(matter == "vacuum"),
              form=draw(st.sampled_from(["components", "tensors"])),
-             gdet_first=draw(st.booleans()), kind=kind)
+             gdet_first=draw(st.booleans()), kind=kind,
+             first=draw(st.sampled_from(FIRST)))
     return c
 
 
@@ -130,7 +137,8 @@ def generic_cases():
     from harness import cases as _cases
     for form in ("components", "tensors"):
         cases.append(dict(_cases.generic_Wt0(4), Lambda=0.25, form=form,
-                          matter="Tdown4", vacuum=False, gdet_first=False))
+                          matter="Tdown4", vacuum=False, gdet_first=False,
+                          first="st_Gamma_udd4"))
     return cases
 
 
@@ -157,6 +165,10 @@ def test_case(case, note):
     for lvl in (0, 1):
         rel, ex, fd, trim = su.build(lvl)
         out = {}
+        if case.get("first"):
+            # the key computed first on the fresh instance (nothing cached
+            # yet) varies from case to case
+            out[case["first"]] = rel[case["first"]]
         if case.get("gdet_first"):
             out["gdet"] = rel["gdet"]          # alpha^2 gamma branch
             out["gdown4"] = rel["gdown4"]
